@@ -228,6 +228,18 @@ fn rand_drift(rng: &mut Rng) -> u32 {
     }
 }
 
+/// Ages at which a truncating conversion of the age would wrap: unit x 2^bits x k, plus a little.
+fn wrap_age(rng: &mut Rng) -> i128 {
+    let unit: i128 = *rng.pick(&[1i128, 1_000, 1_000_000, 1_000_000_000]);
+    let bits = *rng.pick(&[15u32, 16, 24, 31, 32, 33, 40, 48, 52, 53, 63]);
+    let k = 1 + rng.below(3) as i128;
+    let base = unit.saturating_mul(1i128 << bits).saturating_mul(k);
+    let delta = match rng.below(4) { 0 => -1, 1 => 0, 2 => rng.range(0, 5_000_000_000) as i128, _ => rng.range(0, 1_000_000) as i128 };
+    let age = base + delta;
+    // keep inside the +-68 year window (as_of may be as early as -68 years)
+    if age > 2 * RANGE_S as i128 * NS { rng.range(0, 2 * RANGE_S) as i128 * NS } else { age.max(0) }
+}
+
 fn gen_c05(rng: &mut Rng) -> Vec<Vector> {
     let as_of = rand_ts(rng);
     let a = ns(as_of);
@@ -235,7 +247,7 @@ fn gen_c05(rng: &mut Rng) -> Vec<Vector> {
     let drift = rand_drift(rng);
     let real = rand_ts(rng);
     let status = rng.below(3) as i32;
-    let (elapsed, kind): (i128, &'static str) = match rng.below(10) {
+    let (elapsed, kind): (i128, &'static str) = match rng.below(11) {
         0 => (0, "age-zero"),
         1 => (-(rng.range(1, 999) as i128), "age-in-blur"),
         2 => (1, "age-1ns"),
@@ -249,8 +261,11 @@ fn gen_c05(rng: &mut Rng) -> Vec<Vector> {
             let k = rng.range(1, 1_000_000) as i128;
             ((k * NS + d - 1) / d + rng.range(-1, 1) as i128, "age-product-near-integer")
         }
+        8 => (wrap_age(rng), "age-wrap-boundary"),
         _ => (rng.magnitude(62) as i128, "age-random"),
     };
+    // a record old enough needs an early as_of
+    let (as_of, a) = if elapsed > 40 * 365 * 86400 * NS || kind == "age-wrap-boundary" { let t = (-RANGE_S + rng.range(0, 1000), as_of.1); (t, ns(t)) } else { (as_of, a) };
     let m = clamp_ts(a + elapsed);
     // Keep the generated age when clamping moved mono: recompute nothing, the oracle uses mono.
     let void_after = match rng.below(3) {
@@ -275,6 +290,10 @@ fn gen_c06(rng: &mut Rng) -> Vec<Vector> {
     let as_of = {
         let mut t = rand_ts(rng);
         t.0 = t.0.clamp(-RANGE_S + 10, RANGE_S - 200_000);
+        if rng.chance(1, 4) {
+            // an early as_of leaves room for very old records
+            t.0 = -RANGE_S + 10 + rng.range(0, 100_000);
+        }
         t
     };
     let a = ns(as_of);
@@ -287,7 +306,7 @@ fn gen_c06(rng: &mut Rng) -> Vec<Vector> {
     let va = clamp_ts(va).max(a + 5 * NS);
     let status = rng.below(3) as i32;
     let off = rng.range(-1, 1) as i128;
-    let (m, region): (i128, &'static str) = match rng.below(9) {
+    let (m, region): (i128, &'static str) = match rng.below(10) {
         0 => (a - 1000 + 1 + off.max(0), "blur-edge"),
         1 => (a + off, "as_of"),
         2 => (a + 5 * NS + off, "grace"),
@@ -302,6 +321,7 @@ fn gen_c06(rng: &mut Rng) -> Vec<Vector> {
         }
         6 => (va + rng.magnitude(50) as i128, "beyond-void"),
         7 => (a - rng.range(0, 999) as i128, "in-blur"),
+        8 => (a + wrap_age(rng), "wrap-boundary"),
         _ => (a + rng.magnitude(56) as i128, "random"),
     };
     let m = clamp_ts(m);
@@ -312,13 +332,14 @@ fn gen_c06(rng: &mut Rng) -> Vec<Vector> {
 fn gen_c14(rng: &mut Rng) -> Vec<Vector> {
     let as_of = rand_ts(rng);
     let a = ns(as_of);
-    let (m, mk): (i128, &str) = match rng.below(8) {
+    let (m, mk): (i128, &str) = match rng.below(9) {
         0 => (a - BLUR_NS.load(std::sync::atomic::Ordering::Relaxed) as i128 + rng.range(-2, 2) as i128, "blur-edge"),
         1 => (a - rng.range(1001, 5_000_000_000) as i128, "breach"),
         2 => (-(RANGE_S as i128) * NS, "mono-min"),
         3 => (RANGE_S as i128 * NS + NS - 1, "mono-max"),
         4 => (a - rng.range(0, 1000) as i128, "in-blur"),
         5 => (a - rng.magnitude(62) as i128, "deep-breach"),
+        7 => (a + wrap_age(rng), "after-wrap-boundary"),
         _ => (a + rng.magnitude(62) as i128, "after"),
     };
     let m = clamp_ts(m);
@@ -374,6 +395,8 @@ struct Rig {
     dir: PathBuf,
     writer: ShmWriter,
     client: ClockBoundClient,
+    order_checks: u64,
+    order_violations: Vec<String>,
 }
 
 impl Rig {
@@ -384,7 +407,7 @@ impl Rig {
         let mut writer = ShmWriter::new(&path).expect("ShmWriter::new");
         writer.write(&ClockErrorBound::default());
         let client = ClockBoundClient::new_with_path(path.to_str().unwrap()).expect("client");
-        Rig { dir, writer, client }
+        Rig { dir, writer, client, order_checks: 0, order_violations: Vec::new() }
     }
 
     fn eval(&mut self, v: &Vector) -> Outcome {
@@ -399,7 +422,19 @@ impl Rig {
         self.writer.write(&ceb);
         clock::fixed::set(v.real, v.mono);
         let client = &mut self.client;
-        match catch_unwind(AssertUnwindSafe(|| client.now())) {
+        let _ = clock::fixed::take_order();
+        let answer = catch_unwind(AssertUnwindSafe(|| client.now()));
+        // C12: whatever path now() takes, the monotonic clock is read after the realtime clock.
+        let order = clock::fixed::take_order();
+        let last_real = order.iter().rposition(|c| *c == libc::CLOCK_REALTIME);
+        let last_mono = order.iter().rposition(|c| *c != libc::CLOCK_REALTIME);
+        if let (Some(r), Some(m)) = (last_real, last_mono) {
+            if r > m {
+                self.order_violations.push(format!("{:?}", order));
+            }
+        }
+        self.order_checks += 1;
+        match answer {
             Ok(Ok(r)) => Outcome::Ok {
                 earliest: (r.earliest.tv_sec(), r.earliest.tv_nsec()),
                 latest: (r.latest.tv_sec(), r.latest.tv_nsec()),
@@ -626,6 +661,12 @@ fn main() {
                 reserved,
                 status_of(v.status),
             );
+            if rng.chance(1, 20) {
+                // the counter is about to wrap, or a previous daemon died inside an update
+                use std::os::unix::fs::FileExt;
+                let g: u16 = *rng.pick(&[0xFFFFu16, 0xFFFE, 0xFFFD, 0xFFFC, 1, 3, 0x7FFF, 0x8001]);
+                std::fs::OpenOptions::new().write(true).open(&path).unwrap().write_at(&g.to_ne_bytes(), 14).unwrap();
+            }
             writer.write(&ceb);
             let bytes = std::fs::read(&path).unwrap();
             let hex: String = bytes.iter().map(|b| format!("{:02x}", b)).collect();
@@ -734,10 +775,16 @@ fn main() {
         }
         k += nshards;
     }
+    let order_checks = rig.order_checks;
+    for o in rig.order_violations.iter().take(3) {
+        if violations.len() < 20 {
+            violations.push(json!({"sig": "clock-read-order", "detail": format!("now() read the clocks in the order {} (ids: 0 realtime, 6 monotonic coarse, 1 monotonic): the monotonic clock must be read after CLOCK_REALTIME", o), "replay": ""}));
+        }
+    }
     drop(rig);
     let out = json!({
         "evaluations": evaluations, "distinct": distinct.len(), "distinct_capped": distinct.len() >= DISTINCT_CAP, "cells": cells, "outcomes": outcomes, "chain_checks": chain_checks,
-        "violations": violations, "samples": samples, "virtual_clock_reads": clock::virtual_reads(), "blur_ns": blur,
+        "violations": violations, "samples": samples, "virtual_clock_reads": clock::virtual_reads(), "blur_ns": blur, "clock_order_checks": order_checks,
         "wall_s": (clock::real_clock_ns(libc::CLOCK_MONOTONIC) - t0) as f64 / 1e9,
     });
     let outp = arg_str(&args, "out", "");
